@@ -219,6 +219,77 @@ def CloseReq.mirror (r : CloseReq) : CloseReq :=
   { r with localScript := r.remoteScript, remoteScript := r.localScript, lop := r.rop, rop := r.lop,
            payer := r.payer.map Party.other }
 
+/-! ### RBF co-op close (`rbf_coop_transitions.go`), balance / fee / sig-field level -/
+
+/-- which sig field of closing_complete / closing_sig is used. -/
+inductive SigLabel where
+  | closerOnly   -- closer_output_only      (`CloserNoClosee`)
+  | closeeOnly   -- closee_output_only      (`NoCloserClosee`)
+  | both         -- closer_and_closee_outputs (`CloserAndClosee`)
+  deriving DecidableEq, Repr
+
+/-- one side's `CloseChannelTerms` together with its channel view. `sdLocal` / `sdRemote` are
+    `lnwallet.DustLimitForSize(len(script))` of the two delivery scripts (shutdown scripts are
+    witness programs, never OP_RETURN). -/
+structure RbfTerms where
+  v : View
+  localScript : Script
+  remoteScript : Script
+  sdLocal : Int
+  sdRemote : Int
+  deriving DecidableEq, Repr
+
+def RbfTerms.mirror (t : RbfTerms) : RbfTerms :=
+  { v := t.v.mirror, localScript := t.remoteScript, remoteScript := t.localScript,
+    sdLocal := t.sdRemote, sdRemote := t.sdLocal }
+
+/-- the lnwallet request both roles make: custom payer, `MaxRBFSequence`, optional locktime. -/
+def rbfReq (t : RbfTerms) (fee : Int) (payer : Party) (lock : Option Nat) : CloseReq :=
+  { fee := fee, localScript := t.localScript, remoteScript := t.remoteScript, lop := false,
+    rop := false, payer := some payer, customSeq := some maxRBFSequence, customLock := lock }
+
+inductive RbfOffer where
+  | skip                         -- `!LocalCanPayFees`: no closing_complete (CloseErr state)
+  | err (e : CloseErr)           -- CreateCloseProposal failed
+  | sent (label : SigLabel) (tx : CloseTx) (bal : Int)
+  deriving DecidableEq, Repr
+
+/-- `LocalCloseStart` on `SendOfferEvent` with absolute fee `fee`: the closer pays, signs a tx
+    WITHOUT a custom locktime, and picks the sig field from the RAW remote balance against the
+    remote script's dust limit, else from its own post-fee balance against its script's dust. -/
+def rbfOffer (t : RbfTerms) (fee : Int) : RbfOffer :=
+  if toSat t.v.localMsat < fee then .skip
+  else
+    match closeProposal t.v (rbfReq t fee .local none) with
+    | .error e => .err e
+    | .ok (tx, bal) =>
+      let label :=
+        if toSat t.v.remoteMsat < t.sdRemote then SigLabel.closerOnly
+        else if bal < t.sdLocal then SigLabel.closeeOnly
+        else SigLabel.both
+      .sent label tx bal
+
+inductive RbfAccept where
+  | cannotPay                    -- ErrRemoteCannotPay
+  | badLabel                     -- validateSigFields
+  | err (e : CloseErr)
+  | ok (tx : CloseTx)
+  deriving DecidableEq, Repr
+
+/-- `RemoteCloseStart` on closing_complete(fee, label, locktime): the closee checks the closer's
+    RAW balance against the fee, the sig field against its own RAW balance's dust status, then
+    builds the tx with the remote as payer and the ANNOUNCED locktime (signature checking is left
+    to the harness: it succeeds iff this tx equals the closer's). -/
+def rbfAccept (t : RbfTerms) (fee : Int) (label : SigLabel) (lock : Nat) : RbfAccept :=
+  if toSat t.v.remoteMsat < fee then .cannotPay
+  else
+    let localIsDust := decide (toSat t.v.localMsat < t.sdLocal)
+    if (localIsDust && label != .closerOnly) || (!localIsDust && label == .closerOnly) then .badLabel
+    else
+      match closeProposal t.v (rbfReq t fee .remote (some lock)) with
+      | .error e => .err e
+      | .ok (tx, _) => .ok tx
+
 /-! ### legacy fee negotiation (`ChanCloser`) -/
 
 inductive NegErr where
